@@ -19,7 +19,7 @@ Viol(o) ==
   \cup UNION {V(Sim(ob.chars[i], ob.alone[i]), "chars-vs-str") : i \in 1..k}
   \cup UNION {V(SimL(ob.lex_seq[i], ob.lex_again[i]), "lexical-history") : i \in 1..k}
 Drift(o) == UNION {LET m == Parse(Chars(o.o.inputs[i])) a == o.o.alone[i] IN
-                   IF m.r # a.r \/ (m.r = "ok" /\ m.v # J2N(a.v)) THEN {"model"} ELSE {} : i \in 1..Len(o.o.inputs)}
+                   IF m.r # a.r \/ (m.r = "ok" /\ MaskN(m.v, m.v) # MaskN(J2N(a.v), m.v)) THEN {"model"} ELSE {} : i \in 1..Len(o.o.inputs)}
 
 Init == l = 1
 Next == /\ l <= Len(Obs)
